@@ -332,6 +332,21 @@ func (X *Exec) execCallWith(fr *Frame, ins ssa.Instruction, cc *ssa.CallCommon, 
 		before := st.Clone()
 		res := X.execCallWith2(fr, ins, cc, st, how, fnv, args)
 		rv := map[string]*Val{}
+		{
+			// the call's receiver and arguments, as in the before-call clauses
+			sig := cc.Signature()
+			off := 0
+			if cc.IsInvoke() && fnv != nil {
+				rv["recv"] = fnv
+			}
+			if !cc.IsInvoke() && sig.Recv() != nil && len(args) > 0 {
+				rv["recv"] = args[0]
+				off = 1
+			}
+			for k, a := range args[off:] {
+				rv[fmt.Sprintf("arg%d", k)] = a
+			}
+		}
 		if res != nil {
 			if res.Tuple != nil {
 				for i, v := range res.Tuple {
